@@ -202,6 +202,7 @@ class Engine:
     def __init__(self, repo, sidecar, feas_timeout_ms=150):
         self.repo = repo
         self.sidecar = sidecar
+        self.feas_cache = {}
         self.spec_funcs = {}      # name -> (z3 func, param kinds, ret kind)
         self.spec_defined = set()
         self.feas_timeout_ms = feas_timeout_ms
@@ -500,7 +501,14 @@ class Exec:
             self.trace.append(True)
         self.pos += 1
         self.pc.append(c if d else vl.simp(z3.Not(c)))
-        if not self.feasible():
+        # re-execution replays the same decisions: the feasibility of a decision prefix is cached
+        key = (self.fname, id(self.contract), tuple(self.trace[:self.pos]))
+        cache = self.eng.feas_cache
+        ok = cache.get(key)
+        if ok is None:
+            ok = self.feasible()
+            cache[key] = ok
+        if not ok:
             raise Infeasible()
         return d
 
